@@ -50,6 +50,11 @@ def gen_expr(rng):
         text = f"trim({text})//{G.lit(rng)}"
     elif r < 0.3:
         text = f"[{G.lit(rng)}]"
+    elif r < 0.5:                    # short gaps between several literals
+        k = rng.choice([2, 3, 4, 5])
+        sep = rng.choice([", ", ",", "//"])
+        inner = sep.join(G.lit(rng) for _ in range(k))
+        text = inner if sep == "//" else "[" + inner + "]"
     return text
 
 
